@@ -4,10 +4,50 @@ keeps the deviations carrying its own tag prefix."""
 from lib import vlib
 
 
+# terminal variants of TScreenModel and a built-in entry of each kind to replay behaviours on
+VARIANTS = [
+    ("civis+rmam", dict(HasCivis="TRUE", HasRmam="TRUE", Ich1Trick="FALSE"), "xterm-256color"),
+    ("corner-trick", dict(HasCivis="FALSE", HasRmam="FALSE", Ich1Trick="TRUE"), "sun-color"),
+    ("nocivis+rmam", dict(HasCivis="FALSE", HasRmam="TRUE", Ich1Trick="FALSE"), "vt100"),
+    ("automargin", dict(HasCivis="FALSE", HasRmam="FALSE", Ich1Trick="FALSE"), "ansi"),
+]
+
+
+def model_and_replay(ctx, prefix, nvariants, mops, gops, every):
+    """M: TScreenModel exhaustively for the first nvariants terminal variants; G: its behaviours (histories ending in a
+    draw) replayed on a real screen of that variant and validated by TScreenTrace."""
+    nb_total, devs = 0, []
+    for name, consts, term in VARIANTS[:nvariants]:
+        c = dict(consts, W=3, H=2, MaxOps=mops, CornerFix="TRUE", GEN="FALSE")
+        ctx.model("TScreenModel", constants=c, timeout=3400)
+        g = ctx.tlc("TScreenModel", workers=16, timeout=3400, constants=dict(c, MaxOps=gops, GEN="TRUE"))
+        if not g["ok"]:
+            raise vlib.MachineryError("behaviour generation failed for variant " + name)
+        beh = ctx.work + "/beh_%s.ndjson" % name
+        nb = ctx.behaviours(g, beh)
+        tf = ctx.work + "/trace_beh_%s.ndjson" % name
+        s, _ = ctx.run_vh(["screen", "--behaviours", beh, "--behevery", every, "--terms", term, "--random", 0, "--seed", ctx.seed,
+                           "--out", tf], timeout=3000)
+        r = ctx.validate_parallel("TScreenTrace", tf, parts=8, expect_events=s.get("events"), timeout=3400)
+        mine = [d for d in r["devs"] if d["tag"].startswith(prefix + ".")]
+        for d in mine:
+            d["variant"] = name
+        ctx.add_violations(mine, tf)
+        nb_total += s["histories"]
+    # the corner trick as it was found is refuted by the model (evidence that the model discriminates)
+    bad = ctx.tlc("TScreenModel", workers=16, timeout=1200,
+                  constants=dict(VARIANTS[1][1], W=3, H=2, MaxOps=3, CornerFix="FALSE", GEN="FALSE"))
+    ctx.cov["model_of_original_corner_trick_refuted"] = "is violated" in bad["out"]
+    ctx.cov["behaviours_replayed"] = nb_total
+    return nb_total
+
+
 def run_screen(ctx, prefix, mix="draw", per_term=(3, 40), ops=30, extra_runs=(), level="model_checking", rule=None,
                model=None):
     q = ctx.tier == "quick"
     ctx.build_harness()
+    if model:
+        model_and_replay(ctx, prefix, *model)
     n = per_term[0] if q else per_term[1]
     tf = ctx.work + "/trace.ndjson"
     s, _ = ctx.run_vh(["screen", "--random", n, "--ops", ops, "--seed", ctx.seed, "--mix", mix,
